@@ -83,6 +83,7 @@ type worldOpts struct {
 	endpointVariety               bool
 	signReqVariety                bool
 	acsVariety                    bool
+	acsSupportedVariety           bool // 1..3 ACS entries over POST/Redirect only, with every index / isDefault mix
 	sloVariety                    bool
 	metaVariety                   bool
 	parkVariety                   bool
@@ -117,7 +118,9 @@ func (g G) drawIDP(o worldOpts) IDPCfg {
 	}
 	if o.endpointVariety {
 		drawEP := func(label, def string) EndpointCfg {
-			switch g.weighted(label, 60, 15, 15, 10) {
+			switch g.weighted(label, 55, 13, 12, 10, 10) {
+			case 4:
+				return EndpointCfg{Set: true, Path: g.pick(label+".dir", "/dir/", "v2/") + def + "/"}
 			case 1:
 				return EndpointCfg{Set: true, Path: "/custom/" + def}
 			case 2:
@@ -195,6 +198,13 @@ func (g G) drawSP(i int, o worldOpts, hardURL bool) SPCfg {
 			b := g.pick(fmt.Sprintf("sp%d.acs%d.b", i, k), BindPost, BindRedirect, BindPost, BindRedirect, BindArtifact, BindPAOS, "urn:example:binding:unknown")
 			a := ACSCfg{Binding: b, Index: g.pick(fmt.Sprintf("sp%d.acs%d.i", i, k), "0", "1", "2", "7", "65535"), URL: fmt.Sprintf("%s/acs%d%s", base, k, q)}
 			a.IsDefault = g.pick(fmt.Sprintf("sp%d.acs%d.d", i, k), "", "", "true", "false", "1", "0")
+			c.ACS = append(c.ACS, a)
+		}
+	} else if o.acsSupportedVariety && g.chance(fmt.Sprintf("sp%d.acsv", i), 70) {
+		n := g.rng(fmt.Sprintf("sp%d.nacs", i), 1, 3)
+		for k := 0; k < n; k++ {
+			a := ACSCfg{Binding: g.pick(fmt.Sprintf("sp%d.acs%d.b", i, k), BindPost, BindRedirect), Index: g.pick(fmt.Sprintf("sp%d.acs%d.i", i, k), "1", "2", "0", "7", "65535", "3"), URL: fmt.Sprintf("%s/acs%d%s", base, k, q)}
+			a.IsDefault = g.pick(fmt.Sprintf("sp%d.acs%d.d", i, k), "", "", "", "true", "false", "1", "0")
 			c.ACS = append(c.ACS, a)
 		}
 	} else {
